@@ -20,8 +20,9 @@ def impl_one(case):
     from socialchoicekit.elicitation_matching import DoubleLambdaTSF
     from socialchoicekit.elicitation_utils import IntegerValuationProfileElicitor
     from socialchoicekit.profile_utils import StrictCompleteProfile, IntegerValuationProfile
-    P1 = StrictCompleteProfile.of(np.array(case["P1"], dtype=np.int64))
-    P2 = StrictCompleteProfile.of(np.array(case["P2"], dtype=np.int64))
+    dt = np.float64 if case.get("float_ranks") else np.int64
+    P1 = StrictCompleteProfile.of(np.array(case["P1"], dtype=dt))
+    P2 = StrictCompleteProfile.of(np.array(case["P2"], dtype=dt))
     mk = lambda V: IntegerValuationProfileElicitor(IntegerValuationProfile.of(np.array(V, dtype=np.int64)))
     rule = DoubleLambdaTSF(case["lam1"], case["lam2"], zero_indexed=case["zero"])
     sim = rule.get_simulated_cardinal_profiles(P1, P2, mk(case["V1"]), mk(case["V2"]))
@@ -59,8 +60,10 @@ def judge(R, it, res, cert, lean_cert, sim_ans):
     n = len(P1)
     fixer = 0 if it["zero"] else 1
     inp = {"P1": P1, "P2": P2, "V1": V1, "V2": V2, "lambda_1": it["lam1"], "lambda_2": it["lam2"]}
-    cfg = {"zero_indexed": it["zero"]}
+    cfg = {"zero_indexed": it["zero"], "float_ranks": bool(it.get("float_ranks"))}
     R.count(it["tag"])
+    if it.get("float_ranks"):
+        R.count("ranks_stored_as_float64")
     if "hang" in res or "exc" in res:
         R.violation("property_violation", "terminates without raising", ENTRY, inp, impl_output=res, oracle="raised/hang", config=cfg)
         return
@@ -130,7 +133,7 @@ def gen(R, nmax, count):
             V1, V2 = S.vals_agreeing(R.rng, P1, 0, 1), S.vals_agreeing(R.rng, P2, 0, 2)
         else:
             V1, V2 = S.vals_agreeing(R.rng, P1, ties=False), S.vals_agreeing(R.rng, P2, ties=False)
-        items.append({"P1": P1, "P2": P2, "V1": V1, "V2": V2, "lam1": R.rng.randint(1, n), "lam2": R.rng.randint(1, n), "zero": R.rng.random() < 0.5, "tag": kind})
+        items.append({"P1": P1, "P2": P2, "V1": V1, "V2": V2, "lam1": R.rng.randint(1, n), "lam2": R.rng.randint(1, n), "zero": R.rng.random() < 0.5, "tag": kind, "float_ranks": R.rng.random() < 0.4})
     return items
 
 
@@ -197,4 +200,4 @@ def run(R):
 def replay(R, rep):
     i = rep["input"]
     run_items(R, [{"P1": i["P1"], "P2": i["P2"], "V1": i["V1"], "V2": i["V2"], "lam1": i["lambda_1"], "lam2": i["lambda_2"],
-                   "zero": rep.get("config", {}).get("zero_indexed", True), "tag": "replay"}])
+                   "zero": rep.get("config", {}).get("zero_indexed", True), "float_ranks": rep.get("config", {}).get("float_ranks", False), "tag": "replay"}])
